@@ -55,6 +55,11 @@ def tlEngine (ss : TlState) (args : List String) : TlState × String :=
     | some now, some delay =>
       if tlFitsI now && delay < 2 ^ 32 then let s := init delay; (tlSet ss sid s, s!"ok | {tlDigest s}") else (ss, "bad-op")
     | _, _ => (ss, "bad-op")
+  | ["delayf", sid, now, caller, delta] =>
+    match tlLookup ss sid, pInt now, allNat [caller, delta] with
+    | some s, some now, some [caller, delta] =>
+      if tlFitsI now && caller < 6 && delta < 2 ^ 32 then tlReply ss sid s (increaseDelayWith 0 s ⟨1, 0, 0, true⟩ caller delta) else (ss, "bad-op")
+    | _, _, _ => (ss, "bad-op")
   | [op, sid, now, u, role] =>
     match tlLookup ss sid, pInt now, pNat u, tlRole role with
     | some s, some now, some u, some role =>
@@ -69,6 +74,27 @@ def tlEngine (ss : TlState) (args : List String) : TlState × String :=
         | none => (ss, "bad-op")
       else (ss, "bad-op")
     | _, _, _, _ => (ss, "bad-op")
+  -- account-binding sweep: the store is `0`, the foreign store `1` (its config has delay 0)
+  | ["execf", sid, now, caller, id, r, rr, which] =>
+    match tlLookup ss sid, pInt now, allNat [caller, id, r, rr] with
+    | some s, some now, some [caller, id, r, rr] =>
+      if tlFitsI now && caller < 6 && id < 10 && r < 3 && rr < 6 && rr != caller && (which = "cfg" || which = "exe") then
+        let a : Supplied := if which = "cfg" then ⟨1, 0, 0, true⟩ else ⟨0, s.delay, 1, false⟩
+        match execWith 0 s a now caller id r rr with
+        | some (s', _) => (tlSet ss sid s', s!"ok | {tlDigest s'}")
+        | none => (ss, s!"err | {tlDigest s}")
+      else (ss, "bad-op")
+    | _, _, _ => (ss, "bad-op")
+  | ["approvef", sid, now, caller, id, r] =>
+    match tlLookup ss sid, pInt now, allNat [caller, id, r] with
+    | some s, some now, some [caller, id, r] =>
+      if tlFitsI now && caller < 6 && id < 10 && r < 3 then tlReply ss sid s (approveWith 0 s ⟨0, s.delay, 1, false⟩ now caller id r) else (ss, "bad-op")
+    | _, _, _ => (ss, "bad-op")
+  | ["cancelf", sid, now, caller, id, r, rr] =>
+    match tlLookup ss sid, pInt now, allNat [caller, id, r, rr] with
+    | some s, some now, some [caller, id, r, rr] =>
+      if tlFitsI now && caller < 6 && id < 10 && r < 3 && rr < 6 && rr != caller then tlReply ss sid s (cancelWith 0 s ⟨0, s.delay, 1, false⟩ caller id r rr) else (ss, "bad-op")
+    | _, _, _ => (ss, "bad-op")
   | ["approve", sid, now, caller, id, r] =>
     match tlLookup ss sid, pInt now, allNat [caller, id, r] with
     | some s, some now, some [caller, id, r] =>
